@@ -336,10 +336,101 @@ def check_generic(case: t.Any, ctx: Ctx) -> None:
                  f"(len({{...}}) of the three is {len(set(insts))})")
 
 
+# ---- equal instances hash equal *at every moment*: histories of hash / modify / compare ------------------------------
+#
+# A hash computed once and remembered is only right for an object that cannot change.  Three legitimate ways a pane
+# instance with a field hash changes: (a) a non-frozen class with unsafe_hash=True, (b) a non-frozen subclass of a frozen
+# class that keeps the parent's hash (explicitly, or by inheriting __eq__ and __hash__ with eq=False), (c) a frozen
+# class holding a hashable-but-mutable member that is modified in place.  The history is plain data.
+
+HIST_SCENARIOS = ['unsafe-hash', 'unfrozen-subclass-explicit-hash', 'unfrozen-subclass-inherited', 'mutable-member', 'mutable-member-nested']
+
+
+def _hist_classes(scn: str) -> t.Tuple[t.Any, t.Callable[[int, int], t.Any], t.Callable[[t.Any, int], None]]:
+    """-> (class, make(v, w), modify(instance, v))"""
+    import pane
+    key = 'hist:' + scn
+    if key in _CACHE:
+        return _CACHE[key]
+    def mk(name: str, bases: t.Tuple[t.Any, ...], ann: t.Dict[str, t.Any], extra: t.Dict[str, t.Any], **opts: t.Any) -> t.Any:
+        # (real type objects in __annotations__: this module's annotations are strings, which local classes could not be resolved from)
+        return type(name, bases, {'__annotations__': ann, **extra}, **opts)
+    if scn == 'unsafe-hash':
+        Rec = mk('Rec', (pane.PaneBase,), {'v': int, 'w': int}, {'w': 0}, frozen=False, unsafe_hash=True)
+        out = (Rec, lambda v, w: Rec(v, w), lambda x, v: setattr(x, 'v', v))
+    elif scn in ('unfrozen-subclass-explicit-hash', 'unfrozen-subclass-inherited'):
+        Point = mk('Point', (pane.PaneBase,), {'v': int, 'w': int}, {'w': 0}, frozen=True)
+        if scn == 'unfrozen-subclass-explicit-hash':
+            Mut = mk('Mut', (Point,), {}, {'__hash__': Point.__hash__}, frozen=False)
+        else:
+            Mut = mk('Mut', (Point,), {}, {}, frozen=False, eq=False)
+        out = (Mut, lambda v, w: Mut(v, w), lambda x, v: setattr(x, 'v', v))
+        _KEEP.append(Point)
+    else:
+        Cell = mk('Cell', (pane.PaneBase,), {'v': int}, {}, frozen=False, unsafe_hash=True)
+        if scn == 'mutable-member':
+            Box = mk('Box', (pane.PaneBase,), {'cell': Cell, 'w': int}, {'w': 0}, frozen=True)
+            out = (Box, lambda v, w: Box(Cell(v), w), lambda x, v: setattr(x.cell, 'v', v))
+        else:
+            Box = mk('Box', (pane.PaneBase,), {'cells': t.Tuple[Cell, ...], 'w': int}, {'w': 0}, frozen=True)
+            out = (Box, lambda v, w: Box((Cell(v), Cell(0)), w), lambda x, v: setattr(x.cells[0], 'v', v))
+        _KEEP.append(Cell)
+    _KEEP.append(out[0])
+    _CACHE[key] = out
+    return out
+
+
+@st.composite
+def history_cases(draw) -> t.Any:
+    scn = draw(st.sampled_from(HIST_SCENARIOS))
+    ops = draw(st.lists(st.one_of(st.just(['hash']), st.just(['hash']), st.tuples(st.just('set'), st.integers(0, 2)).map(list), st.just(['copy']),
+                                  st.just(['in-set'])), min_size=1, max_size=6))
+    return [scn, draw(st.integers(0, 2)), draw(st.integers(0, 1)), ops]
+
+
+def check_history(case: t.Any, ctx: Ctx) -> None:
+    (scn, v0, w, ops) = case
+    (cls, make, modify) = _hist_classes(scn)
+    x = make(v0, w)
+    cur = v0
+    hashed = modified_after_hash = False
+    ctx.label(f"scenario:{scn}")
+    for (i, op) in enumerate(ops):
+        ctx.evaluated()
+        ident = f"{scn}: x = {make(v0, w)!r}; operations {ops[:i + 1]}"
+        if op[0] == 'hash':
+            hash(x)
+            hashed = True
+        elif op[0] == 'set':
+            (k, e) = outcome(lambda: modify(x, op[1]))
+            if k != 'ok':
+                ctx.fail('frozen', f'modification-refused:{scn}', f"{ident}; the permitted modification raised {type(e).__name__}: {e}")
+                return
+            if hashed and op[1] != cur:
+                modified_after_hash = True
+            cur = op[1]
+        elif op[0] == 'copy':
+            x = copy.copy(x) if scn not in ('mutable-member', 'mutable-member-nested') else x
+        fresh = make(cur, w)
+        if op[0] == 'in-set':
+            if fresh not in {x}:
+                ctx.fail('eq-implies-hash', f'set-lookup:{scn}', f"{ident}; an equal, freshly built instance {fresh!r} is not found in {{x}}")
+                return
+        if not (x == fresh):
+            ctx.fail('equality', f'after-modification:{scn}', f"{ident}; x is now {x!r} but does not equal a freshly built {fresh!r}")
+            return
+        if hash(x) != hash(fresh):
+            ctx.fail('eq-implies-hash', f'after-modification:{scn}', f"{ident}; x = {x!r} equals a freshly built instance but hash(x) = {hash(x)} != {hash(fresh)}")
+            return
+    ctx.nontrivial(modified_after_hash)
+
+
 def suites(tier: str) -> t.List[Suite]:
     big = tier == 'thorough'
     return [
         Suite('cube', check, cases=cube_cases, exhaustive=True, budget_s=300, render=render),
         Suite('generic', check_generic, cases=generic_cases, exhaustive=True, budget_s=60),
         Suite('flags', check, strategy=cases, examples=6000 if big else 400, budget_s=300 if big else 30, render=render),
+        Suite('hash-history', check_history, strategy=history_cases, examples=2000 if big else 150, budget_s=120 if big else 15,
+              render=lambda c: {'scenario': c[0], 'first value': c[1], 'operations': c[3]}),
     ]
